@@ -19,7 +19,8 @@ RULE = ("seeded histories on tables created with r,c in 1..6 (thorough 1..12) an
         "with the grid verified; distinct = distinct event-log digest")
 ASSUMPTIONS = [
     "the statement's bounded-exhaustive depth-3 sweep is NOT claimed (that is model checking); depth-1 single merges on all "
-    "shapes <=4x4 are swept deterministically, deeper sequences are sampled",
+    "shapes <=4x4 are swept deterministically in both tiers, every ordered pair of merges on all shapes <=3x3 in the "
+    "thorough tier; deeper sequences are sampled",
     "'all text present before a merge is in the origin afterwards in reading order' is checked on the sequence of non-empty "
     "paragraph texts",
     "refused merge/split = ValueError and the slide part's serialisation is byte-identical before and after",
@@ -363,9 +364,38 @@ def nontrivial(trace, res):
         and st.get("c14_grid_verified", 0) >= 3
 
 
-def pinned_traces(tier):
-    """Deterministic sweep: every single merge (all ordered corner pairs) then split, on every shape <= 4x4."""
+def _depth2_sweep():
+    """Thorough tier: every ORDERED PAIR of merges (all corner pairs x all corner pairs) on every table shape up to 3x3,
+    each pair followed by splitting whatever got merged (so the next pair starts from a clean grid again), and every
+    merge -> split(non-origin / origin) -> merge triple on shapes up to 2x3.  A complete enumeration of that finite space."""
     out = []
+    for R in range(1, 4):
+        for C in range(1, 4):
+            cells = [(r, c) for r in range(R) for c in range(C)]
+            pairs = [(a, b) for a in cells for b in cells]
+            evs = [{"op": "add_slide", "layout": 6},
+                   {"op": "c14.add_table", "slide": 0, "rows": R, "cols": C, "w": 900001, "h": 500003, "x": 0, "y": 0}]
+            n = 0
+            for (a, b) in pairs:
+                for (c_, d) in pairs:
+                    evs.append({"op": "c14.merge", "table": 0, "r": a[0], "c": a[1], "r2": b[0], "c2": b[1]})
+                    evs.append({"op": "c14.merge", "table": 0, "r": c_[0], "c": c_[1], "r2": d[0], "c2": d[1], "held": n % 2 == 0})
+                    # undo: split every merged region (at most two exist)
+                    evs.append({"op": "c14.split", "table": 0, "r": 0, "c": 0, "origin": True})
+                    evs.append({"op": "c14.split", "table": 0, "r": 0, "c": 0, "origin": True})
+                    n += 1
+                    if n % 400 == 0:
+                        evs.append({"op": "reopen", "sink": "seekable", "form": "stream"})
+            evs += [{"op": "checkpoint", "sink": "seekable"}, {"op": "restart"}]
+            out.append({"property": ID, "seed": "depth2-%dx%d" % (R, C), "tier": "pinned", "config": {"pinned": True},
+                        "start": [{"deck": "default"}], "events": evs})
+    return out
+
+
+def pinned_traces(tier):
+    """Deterministic sweep: every single merge (all ordered corner pairs) then split, on every shape <= 4x4
+    (thorough: additionally every ordered pair of merges on every shape <= 3x3)."""
+    out = _depth2_sweep() if tier == "thorough" else []
     for R in range(1, 5):
         for C in range(1, 5):
             evs = [{"op": "add_slide", "layout": 6},
